@@ -25,11 +25,26 @@ def run(tier):
         j['c20'] = dict(silent=names[:ns], slow=names[ns:ns + nl], first=rnd.choice([2, 4]), missed=rnd.choice([1, 2]),
                         interval=2, integrity=3, ticks=rnd.randint(3, 8), drop=(k % 3 == 0))
         j['max_steps'] = 700
+    # fixed histories: the first integrity pass (10 s after the start) finds no RUNNING task - the only task is DELAYED by
+    # wait-before, or a join is WAITING - and only afterwards a with-items task loses its accounting job: the periodic check
+    # must still be alive to recover it
+    from harness import engrun, gen
+    for k, pol in enumerate(engrun.POLICIES[1:]):
+        P = gen.Program()
+        P.order = ['t0', 't1', 't2']
+        P.tasks = {'t0': {'kind': 'action', 'wait-before': 11 + k % 2, 'succ': [{'to': 't1'}], 'err': [], 'comp': []},
+                   't1': {'kind': 'action', 'with_items': 2, 'succ': [{'to': 't2'}], 'err': [], 'comp': []},
+                   't2': {'kind': 'action', 'succ': [], 'err': [], 'comp': []}}
+        P.oracle = {'t0': ['ok'], 't1': {0: ['ok'], 1: ['ok']}, 't2': ['ok']}
+        P.flags = {'items': True, 'policy': True}
+        jobs.append(dict(prog=P, scheduler=('default', 'legacy')[k % 2], policy=pol, seed=k + 1, label='late_stuck%d' % k, max_steps=700,
+                         c20=dict(silent=[], slow=[], first=4, missed=2, interval=2, integrity=3, ticks=8, drop='last')))
     return ec.run_property(PID, tier, jobs,
                            'generated programs in which a subset of the actions goes silent (request never served, no heartbeat), another '
                            'subset is slow but alive (heartbeats sent), the clock advances by check intervals with a checker pass after each, the '
                            'genuine results are released late, and in a third of the runs a with-items accounting job is lost (stuck task, to '
-                           'be recovered by the integrity check); non-trivial = distinct runs in which an action was expired or a job was lost',
+                           'be recovered by the integrity check); fixed histories in which the first integrity pass finds nothing RUNNING and a task gets '
+                           'stuck only later; non-trivial = distinct runs in which an action was expired or a job was lost',
                            _nontrivial)
 
 
